@@ -85,6 +85,8 @@ def canon_spec(o):
 
 
 def run(ctx, log):
+    # a failing line that completed nothing leaves a retained session as it was (every kind of failure, at every depth)
+    progcheck.run_failing_lines(ctx, log)
     rng = ctx.rng
     sessions = []
     for n in (1, 2, 3):
